@@ -109,3 +109,19 @@ def net_oracle(meta, spec, env):
         pure[states.index(o["state"])] += E.ev(o["expr"], denv)
     f = [f[i] + pure[i] for i in range(n)]
     return f, V, a, pure
+
+
+def multiset_close(got, exp, rel=1e-9, abs_=1e-9):
+    """two lists of float vectors equal as multisets up to tolerance (greedy matching; sorting floats is not
+    robust when two vectors agree to rounding in their leading entry)"""
+    if len(got) != len(exp):
+        return False
+    used = [False] * len(got)
+    for e in exp:
+        for i, g in enumerate(got):
+            if not used[i] and vec_close(g, e, rel=rel, abs_=abs_):
+                used[i] = True
+                break
+        else:
+            return False
+    return True
